@@ -221,7 +221,7 @@ static void scn_init(void)
 	c6_reset();
 	c6_register_regions();
 	vs_region(&G, sizeof(G), VS_GHOST, "ghost");
-	for (int i = 0; i < C6.prefill_aq; i++) G.ra[F_Y]++;
+	for (int i = 0; i < C6.prefill_aq % 10; i++) G.ra[i == 0 && C6.prefill_aq >= 10 ? F_Z : F_Y]++;
 	vs_plain_write_hook = on_plain_write;
 }
 static void scn_end(void)
@@ -330,6 +330,10 @@ static void enumerate(void)
 		/* a refusal aimed at a fibre that has nothing else pending: whoever is told "true" must be served */
 		c.hk[0] = HK_RA_Y; c.hk[1] = HK_EV1; c.prefill_aq = 7; cfgs[ncfg++] = c;
 		c.hk[0] = HK_RA_Y; c.hk[1] = HK_RA_Z; c.prefill_aq = 7; cfgs[ncfg++] = c;
+		/* the oldest queued request is the only one its fibre has, the queue is full when the drain reaches it */
+		c.hk[0] = HK_RA_H; c.hk[1] = HK_RA_H; c.prefill_aq = 17; cfgs[ncfg++] = c;
+		c.hk[0] = HK_RA_H; c.hk[1] = HK_EV1; c.prefill_aq = 17; cfgs[ncfg++] = c;
+		c.hk[0] = HK_RA_Y; c.hk[1] = HK_RA_H; c.prefill_aq = 17; cfgs[ncfg++] = c;
 		c.nh = 1; c.nest = 1;
 		c.hk[0] = HK_EV1; c.prefill_aq = 8; cfgs[ncfg++] = c;
 		c.hk[0] = HK_RA_Z; c.prefill_aq = 8; cfgs[ncfg++] = c;
